@@ -109,3 +109,36 @@ Theorem C07_set_drops_keys_legacy_refuted :
               run_sqlite trec idr idr false true ops = [OUnit; OUnit; OUnit; OUnit; OVal None].
 Proof. exists [Set_ 0 0 100%Z; Reopen; Set_ 0 1 101%Z; Reopen; Get 0 0]. vm_compute. repeat split; reflexivity. Qed.
 Print Assumptions C07_set_drops_keys_legacy_refuted.
+
+(* ---- JsonDB keeps its document in a TEXT file opened without encoding=: the bytes on disk depend on the
+   locale of the process of each session ([run_json_text], sessions n = 0, 1, .. under the locales [locs n]).
+   If every document the codec produces can be written under any locale and is read back as the same text
+   under any locale ([text_ok]: true of an all-ASCII document), the backend still answers exactly as the map
+   and no close / open ever raises, whatever locale each session runs under ---- *)
+Theorem C07_json_locale_independent : forall (F B L : Type) (encdb : tmap -> F) (decdb : F -> tmap)
+    (tenc : L -> F -> option B) (tdec : L -> B -> option F) (trunc : B),
+  dbcodec_ok F encdb decdb -> text_ok F encdb B L tenc tdec ->
+  forall (locs : nat -> L) (ops : list op),
+    run_json_text F encdb decdb B L tenc tdec trunc locs ops = run_spec ops /\
+    ~ In OExc (run_json_text F encdb decdb B L tenc tdec trunc locs ops).
+Proof. exact json_text_refines. Qed.
+Print Assumptions C07_json_locale_independent.
+
+Example C07_text_nonvacuous : text_ok tmap idm tmap unit (fun _ f => Some f) (fun _ b => Some b).
+Proof. exact id_text_ok. Qed.
+
+(* ---- [text_ok] cannot be dropped: with a codec that writes a non-ASCII task id raw (identity codec, so
+   decode (encode d) = d holds) and an ASCII-only locale ([raw_tenc] / [raw_tdec], locale false),
+   (1) every session under the ASCII locale: the close after storing task 1 raises (and has emptied the file);
+   (2) first session under UTF-8, second under ASCII: the close succeeds, the open of the next session raises.
+   The map answers [OUnit] in both places.  This is the shape of the seeded change C07f
+   (JSONEncoder(ensure_ascii=False)); the current code is outside it as long as [text_ok] holds, which
+   harness/c07.py part D checks on the real classes in a process running under LC_ALL=C ---- *)
+Theorem C07_json_raw_text_refuted :
+  dbcodec_ok tmap idm idm /\
+  (let ops := [Set_ 0 0 100%Z; Reopen; Set_ 1 0 101%Z; Reopen; Get 0 0] in
+   jrun_raw (fun _ => false) ops = [-2; -2; -2; 98; 100]%Z /\ srun_ ops = [-2; -2; -2; -2; 100]%Z) /\
+  (let ops := [Set_ 1 0 101%Z; Reopen; Get 1 0] in
+   jrun_raw (fun n => Nat.eqb n 0) ops = [-2; 98; 101]%Z /\ srun_ ops = [-2; -2; 101]%Z).
+Proof. split; [exact id_dbcodec_ok | vm_compute; repeat split; reflexivity]. Qed.
+Print Assumptions C07_json_raw_text_refuted.
